@@ -376,7 +376,8 @@ def r15_5(ctx: Ctx):
     ok = False
     if calls_w and len(rets) == 1:
         acc = calls_w[0][1]["V_acc"]
-        ok = norm(rets[0].value).replace(" ", "") in (("len(%s)==len(%s)" % (acc, atoms_p)), ("len(%s)==len(%s)" % (atoms_p, acc))) \
+        from ..pat import expand_single_defs as _xsd15
+        ok = norm(_xsd15(f.node, rets[0].value, skip=(acc,))).replace(" ", "") in (("len(%s)==len(%s)" % (acc, atoms_p)), ("len(%s)==len(%s)" % (atoms_p, acc))) \
             and any(isinstance(s_, (ast.Assign, ast.AnnAssign)) and norm(s_.targets[0] if isinstance(s_, ast.Assign) else s_.target) == acc
                     and norm(s_.value) == "[]" for s_ in f.node.body) and rets[0].lineno > calls_w[0][0].lineno
         walker = ctx.repo.func(calls_w[0][1]["V_walk"], required=False)
